@@ -12,7 +12,7 @@
    ResetAll sent on start (n = 0) and of every later ResetAll / reconnect. *)
 From Coq Require Import String.
 From GoRes Require Import Pattern.Spec Subs.Spec.
-From GoRes Require Import Subs.Proofs Subs.ProofsSem Subs.ProofsOnce.
+From GoRes Require Import Subs.Proofs Subs.ProofsSem Subs.ProofsOnce Subs.ProofsDefault.
 Open Scope N_scope.
 
 (* every request subject for a resource name under an owned pattern reaches some subscription:
@@ -137,6 +137,29 @@ Theorem default_layout_coverage : forall name l q r, name_ok name = true -> nats
      exists sub, In sub (subscriptions (cfg_layout name None None l q)) /\ nats_match sub (subj_plain t_access r) = true).
 Proof. exact default_layout_coverage_pf. Qed.
 
+(* EXACTLY once under the default ownership: as soon as some registered handler has a method of a kind,
+   every request of that kind for the service name or anything below it (anything at all for the
+   empty name) is matched by exactly one subscription - in particular a call / auth on the service's
+   own name is delivered once although both call.<name>.* and call.<name>.> are in the pattern list *)
+Theorem default_layout_delivered_once : forall name l q r, name_ok name = true -> nats_concrete r = true ->
+  is_nil name || is_prefix (tokens name) (tokens r) = true ->
+  ((exists h, In h l /\ h_res h = true) ->
+     match_count (subj_plain t_get r) (subscriptions (cfg_layout name None None l q)) = 1%nat /\
+     (forall t m, t = t_call \/ t = t_auth -> method_ok m = true ->
+        match_count (subj_method t r m) (subscriptions (cfg_layout name None None l q)) = 1%nat)) /\
+  ((exists h, In h l /\ h_acc h = true) ->
+     match_count (subj_plain t_access r) (subscriptions (cfg_layout name None None l q)) = 1%nat).
+Proof. exact default_layout_delivered_once_pf. Qed.
+(* and conversely: a named service with the default ownership receives no request for a resource that
+   is neither its name nor below it, whatever handlers are registered *)
+Theorem default_layout_outside : forall name l q r, name_ok name = true -> is_nil name = false ->
+  is_prefix (tokens name) (tokens r) = false ->
+  match_count (subj_plain t_get r) (subscriptions (cfg_layout name None None l q)) = 0%nat /\
+  match_count (subj_plain t_access r) (subscriptions (cfg_layout name None None l q)) = 0%nat /\
+  (forall t m, t = t_call \/ t = t_auth -> method_ok m = true ->
+     match_count (subj_method t r m) (subscriptions (cfg_layout name None None l q)) = 0%nat).
+Proof. exact default_layout_outside_pf. Qed.
+
 (* the subscribed subjects do not depend on the queue group; every call carries the configured one *)
 Theorem queue_group_irrelevant : forall c q,
   map fst (subscribe_calls (with_queue c q)) = subscriptions c /\
@@ -201,4 +224,20 @@ Example nonvacuous_layout :
   cfg_ok c = true /\ c_has_acc c = true /\
   subscriptions c = [s2b "get.svc"; s2b "get.svc.>"; s2b "call.svc.>"; s2b "auth.svc.>"; s2b "access.svc"; s2b "access.svc.>"] /\
   reset_payload c = Some (Some [s2b "svc"; s2b "svc.>"], Some [s2b "svc"; s2b "svc.>"]).
+Proof. vm_compute. repeat split. Qed.
+(* a root handler and a nested one; the service's own name and a name two levels below it *)
+Example nonvacuous_default_once :
+  let l := [HReg [] true false; HReg (s2b "a.$id") false true] in
+  let c := cfg_layout (s2b "svc") None None l (s2b "svc") in
+  name_ok (s2b "svc") = true /\ nats_concrete (s2b "svc") = true /\ nats_concrete (s2b "svc.a.b") = true /\
+  method_ok (s2b "m") = true /\
+  is_prefix (tokens (s2b "svc")) (tokens (s2b "svc")) = true /\
+  is_prefix (tokens (s2b "svc")) (tokens (s2b "svc.a.b")) = true /\
+  map (fun s => match_count s (subscriptions c))
+      [subj_plain t_get (s2b "svc"); subj_method t_call (s2b "svc") (s2b "m"); subj_method t_auth (s2b "svc") (s2b "m");
+       subj_plain t_access (s2b "svc"); subj_plain t_get (s2b "svc.a.b"); subj_method t_call (s2b "svc.a.b") (s2b "m");
+       subj_method t_auth (s2b "svc.a.b") (s2b "m"); subj_plain t_access (s2b "svc.a.b")] = [1; 1; 1; 1; 1; 1; 1; 1]%nat /\
+  match_count (subj_method t_call (s2b "svc") (s2b "m")) (all_patterns c) = 2%nat /\
+  map (fun s => match_count s (subscriptions c))
+      [subj_plain t_get (s2b "svcx"); subj_method t_call (s2b "other.svc") (s2b "m"); subj_plain t_access (s2b "sv")] = [0; 0; 0]%nat.
 Proof. vm_compute. repeat split. Qed.
